@@ -53,6 +53,8 @@ type Screen struct {
 	CursorColor      tcell.Color
 
 	Shows int
+	// SnapshotLocked: see MarkShown (used by the terminfo-screen runner)
+	SnapshotLocked bool
 }
 
 // New creates a model of the given size with blank cells.
@@ -265,12 +267,15 @@ func (s *Screen) MarkShown(full bool) {
 	for i := range s.Cells {
 		c := &s.Cells[i]
 		if c.Locked {
-			// locked cells are not painted; their logical content is still
-			// recorded (it decides what is covered by wide runes), and they are
-			// repainted by the first Show after the unlock
-			c.sR, c.sComb, c.sStyle, c.sValid = c.R, c.Comb, c.Style, true
-			c.touched, c.maxWidth = false, 0
-			c.needPaint = true
+			// locked cells are not painted. With SnapshotLocked their logical
+			// content is still recorded (it decides what is covered by wide
+			// runes) and they are repainted by the first Show after the unlock;
+			// otherwise nothing is recorded for them.
+			if s.SnapshotLocked {
+				c.sR, c.sComb, c.sStyle, c.sValid = c.R, c.Comb, c.Style, true
+				c.touched, c.maxWidth = false, 0
+				c.needPaint = true
+			}
 			continue
 		}
 		changed := c.needPaint || !c.sValid || norm(c.R) != norm(c.sR) || c.Style != c.sStyle || !eq(c.Comb, c.sComb)
